@@ -57,8 +57,12 @@ def grep_forbidden():
     return hits
 
 
-class Result:
-    pass
+# which regenerated tables each property's obligations depend on
+TABLES = {
+    "C01": [], "C02": ["Prec", "Escape"], "C03": ["Prec", "Escape"], "C04": ["Prec", "Escape"], "C05": [], "C06": [], "C07": [],
+    "C08": ["Dispatch"], "C09": ["Dispatch"], "C10": ["Config"], "C11": ["Prec"], "C12": [], "C13": ["Dispatch"], "C14": [],
+    "C15": ["Prec", "Escape"], "C16": ["Config"], "C17": [],
+}
 
 
 class Check:
@@ -93,7 +97,7 @@ class Check:
         self.build_log = ""
 
     # ------------------------------------------------------------------ lean side
-    def build(self, modules):
+    def build(self, modules, tables=None):
         """regenerate Gen/*.lean from /repo, build the given modules and the driver.
         Returns dict(extract_ok, built: {module: bool}, driver_ok, log)."""
         os.makedirs(os.path.join(LEAN, ".lake"), exist_ok=True)
@@ -104,7 +108,10 @@ class Check:
                                env=dict(os.environ, OLVERIF_REPO=REPO))
             res["log"] += p.stdout + p.stderr
             if p.returncode != 0:
-                res["extract_ok"] = False
+                failed = re.findall(r"^EXTRACT-ERROR (\S+)", p.stdout, re.M)
+                need = tables if tables is not None else TABLES.get(self.pid, ["Prec", "Escape", "Config", "Dispatch"])
+                if "ALL" in failed or any(t in failed for t in need) or not failed:
+                    res["extract_ok"] = False
             p = subprocess.run(["lake", "build", "driver"], cwd=LEAN, capture_output=True, text=True)
             if p.returncode != 0:
                 res["driver_ok"] = False
